@@ -22,7 +22,7 @@ META = {
     "level_note": "Trusted: Lean kernel; harness. Absolute tolerance 1e-13*ev/r0 per integral (cancellation in pure-multipole entries), torch.sqrt is 1 ulp off IEEE on this build. Partial: Slater overlaps (diat_overlap*) and the assembly of Hcore from them are NOT modelled (listed as modelled: no); rotation and core-core terms are covered by the C02/C01 adapters; PM6 d-orbitals unmodelled.",
     "design_ref": "DESIGN.md section 5 C06",
     "modelled": {"local-frame ERIs (22/4/1)": True, "one-centre Fock": True, "two-centre J/K": True, "additive terms rho0/1/2 (residual)": True, "dd_qq": True,
-                 "rotation to molecular frame": "C02 adapter wrot", "core-core": "C01 adapter enuc", "elec_energy": "C01 adapter eelec", "STO overlaps / resonance integrals": False, "PM6 d": False},
+                 "rotation to molecular frame": "C02 adapter wrot", "core-core": "C01 adapter enuc", "elec_energy": "C01 adapter eelec", "STO overlaps (A/B auxiliary integrals, 6 branches)": "Lean Overlap model + quadrature oracle", "Hcore assembly": "oracle (probe)", "PM6 d": False},
 }
 
 ELEMENTS = [1, 3, 4, 5, 6, 7, 8, 9, 11, 12, 13, 14, 15, 16, 17]
@@ -149,7 +149,31 @@ def probe_fock_properties(inp: Dict[str, Any]) -> Dict[str, Any]:
     # F_a + F_b = 2 J(P) - K(P) = 2 F_RHF(P) (Hcore = 0)
     if d > 1e-10:
         bad.append(f"F_alpha + F_beta != 2 F_RHF(P_alpha + P_beta): {d:.2e}"); kinds.add("uhf_exchange")
-    return {"ok": not bad, "observed": bad, "expected": "G linear, symmetric, self-adjoint; UHF exchange with spin densities", "predicate": "", "fields": {"kinds": sorted(kinds), "method": inp["method"]}}
+    # rotational covariance of both Fock builders for arbitrary (spin-polarised) densities: F[R x, U P U^T] = U F[x, P] U^T with U = per-atom diag(1, R)
+    Rm = esh.random_rotation(rng)
+    s_, x_, ch_, mu_ = esh.batch(inp["names"])
+    real_ = s_ > 0
+    x2 = x_.copy()
+    x2[real_] = x_[real_] @ Rm.T
+    r2 = esh.run(s_, x2, esh.settings(method=inp["method"], eps=1e-8), charges=ch_)
+    mol2 = r2["_mol"]
+    p2 = mol2.parameters
+    args2 = (mol2.maskd, mol2.mask, mol2.idxi, mol2.idxj, mol2.w.detach(), None, p2["g_ss"].detach(), p2["g_pp"].detach(), p2["g_sp"].detach(), p2["g_p2"].detach(), p2["h_sp"].detach(), mol2.method, None, None, None, None, None, None)
+    U1 = np.eye(4)
+    U1[1:, 1:] = Rm
+    U = torch.as_tensor(np.kron(np.eye(mol.molsize), U1))
+    Pa, Pb = 0.5 * A + 0.3 * B, 0.5 * A - 0.3 * B
+    with torch.no_grad():
+        Fr = fock(nmol, mol.molsize, U @ A @ U.T, M0, *args2)
+        d = float((Fr - U @ gA @ U.T).abs().max())
+        if d > 1e-9:
+            bad.append(f"restricted Fock operator not rotation covariant: {d:.2e}"); kinds.add("covariance")
+        Fu0 = fock_u_batch(nmol, mol.molsize, torch.stack((Pa, Pb), dim=1), M0, *args)
+        Fu1 = fock_u_batch(nmol, mol.molsize, torch.stack((U @ Pa @ U.T, U @ Pb @ U.T), dim=1), M0, *args2)
+        d = max(float((Fu1[:, 0] - U @ Fu0[:, 0] @ U.T).abs().max()), float((Fu1[:, 1] - U @ Fu0[:, 1] @ U.T).abs().max()))
+        if d > 1e-9:
+            bad.append(f"unrestricted Fock operator not rotation covariant for a spin-polarised density: {d:.2e}"); kinds.add("uhf_covariance")
+    return {"ok": not bad, "observed": bad, "expected": "G linear, symmetric, self-adjoint, rotation covariant; UHF exchange with spin densities", "predicate": "", "fields": {"kinds": sorted(kinds), "method": inp["method"]}}
 
 
 PROBES = {"fock_properties": probe_fock_properties}
@@ -184,10 +208,78 @@ def corr_fock_blocks(ctx: Ctx, drv):
         ctx.corr_case("_two_center", {"i": i}, [b2f(o) for o in out][:4] if len(out) == 48 else out, want[:4].tolist(), ok)
 
 
+def _oracle_sweep(args):
+    from .. import oracle_nddo as O
+    return O.sweep(**args)
+
+
+def _oracle_lean(args):
+    from .. import oracle_nddo as O
+    return O.lean_crosscheck(**args)
+
+
+def probe_hcore_oracle(inp):
+    from .. import oracle_nddo as O
+    r = O.compare_hcore(inp["method"], inp["z1"], inp["z2"], inp["R"], inp["direction"])
+    ok = bool(r.get("ok_modulo_bseries", r.get("ok", False))) if "skip" not in r else True
+    return {"ok": ok, "observed": {k: r.get(k) for k in ("d_ovl", "d_res", "d_diag", "worst", "b_series", "d_ovl_xb", "d_res_xb")}, "expected": "package overlap/Hcore = independent evaluation",
+            "predicate": "overlap <= 1e-7, Hcore <= 1e-6 eV (excess explained by the truncated B series only)", "fields": {"kinds": ["hcore_oracle"], "method": inp["method"], "cls": r.get("cls")}}
+
+
+PROBES["hcore_oracle"] = probe_hcore_oracle
+
+
+def oracle_stage(ctx: Ctx):
+    rng = ctx.rng
+    els = list(ELEMENTS)
+    if ctx.thorough:
+        jobs = [dict(methods=(m,), elements=tuple(els), distances=(0.6, 1.1, 2.3, 5.0), ndir=2, seed=int(rng.integers(0, 10**6)), triatomics=True) for m in ("MNDO", "AM1", "PM3")]
+    else:
+        sub = sorted({1, 6, 8, 17} | {int(v) for v in rng.choice(els, size=5, replace=False)})
+        jobs = [dict(methods=(m,), elements=tuple(sub), distances=(float(rng.choice([0.6, 1.1])), float(rng.choice([2.3, 5.0]))), ndir=1, seed=int(rng.integers(0, 10**6)), triatomics=(m == "AM1"))
+                for m in ("MNDO", "AM1", "PM3")]
+    results = mdh.pmap(_oracle_sweep, jobs, nproc=3, timeout=3000)
+    classes = {}
+    for job, res in zip(jobs, results):
+        if isinstance(res, Exception) or res is None:
+            ctx.obligation("overlap/Hcore oracle sweep evaluated", False, repr(res)[-1200:], kind="harness")
+            continue
+        for r in res:
+            if "skip" in r or r.get("skipped"):
+                continue
+            ok = bool(r.get("ok_modulo_bseries", r.get("ok", False)))
+            inp = {"method": r.get("method"), "z1": r.get("z1"), "z2": r.get("z2"), "R": r.get("R"), "direction": r.get("direction"), "species": r.get("species")}
+            key = (r.get("method"), r.get("cls"))
+            c = classes.setdefault(key, {"n": 0, "d_ovl": 0.0, "d_res": 0.0, "d_diag": 0.0})
+            c["n"] += 1
+            for k in ("d_ovl", "d_res", "d_diag"):
+                c[k] = max(c[k], float(r.get(k) or 0.0))
+            ctx.probe_case("hcore_oracle", inp, ok, fields={"kinds": ["hcore_oracle"], "method": r.get("method"), "cls": r.get("cls")},
+                           observed={k: r.get(k) for k in ("d_ovl", "d_res", "d_diag", "worst", "b_series")}, expected="package overlap/Hcore = independent evaluation",
+                           predicate="overlap <= 1e-7, Hcore <= 1e-6 eV (excess explained by the truncated B series only)", stratum=f"{r.get('method')}/{r.get('cls')}")
+    ctx.extra["overlap_oracle_classes"] = {f"{k[0]}/{k[1]}": v for k, v in classes.items()}
+    lc = mdh.pmap(_oracle_lean, [dict(methods=("MNDO", "AM1", "PM3") if ctx.thorough else (str(rng.choice(["MNDO", "AM1", "PM3"])),),
+                                      distances=(0.7, 1.3, 2.9) if ctx.thorough else (float(rng.choice([0.7, 1.3, 2.9])),), seed=int(rng.integers(0, 10**6)))], nproc=1, timeout=3000)[0]
+    if isinstance(lc, Exception) or lc is None:
+        ctx.obligation("Lean overlap cross-check evaluated", False, repr(lc)[-1200:], kind="harness")
+    else:
+        ctx.corr_case("Slater overlaps: package vs Lean Overlap model vs quadrature oracle", {"pairs": lc.get("n_pairs")}, {k: lc.get(k) for k in ("aux_max_ulp", "local_vs_package", "overlap_vs_oracle_exact_regime", "overlap_vs_oracle_series_regime", "bad_op")},
+                      "agree within stated bounds", bool(lc.get("ok")))
+
+
 def run(ctx: Ctx):
     from ..translate import gen
     gen.regenerate(ctx, ["FockTables"])
     leanproj.check_theorems(ctx, MODULE, THEOREMS)
+    from .registry import THEOREMS_C06B
+    leanproj.check_theorems(ctx, "PyseqmVerif.Properties.C06b", THEOREMS_C06B)
+    # Slater overlaps and Hcore assembly: independent oracle (numerical quadrature in prolate spheroidal coordinates, own rotation, own assembly)
+    # and three-way tie package <-> Lean Overlap model <-> oracle
+    try:
+        oracle_stage(ctx)
+    except Exception:
+        import traceback
+        ctx.obligation("overlap/Hcore oracle stage ran", False, traceback.format_exc()[-1500:], kind="harness")
     rng = ctx.rng
     # element-pair lattice: every pair class of every table; distances 0.6-15 A
     cases = []
